@@ -1,6 +1,7 @@
 package c19
 
 import (
+	"context"
 	"encoding/json"
 	"fmt"
 	"reflect"
@@ -14,10 +15,13 @@ import (
 	"k8s.io/apimachinery/pkg/api/resource"
 	metav1 "k8s.io/apimachinery/pkg/apis/meta/v1"
 	"k8s.io/apimachinery/pkg/types"
+	admissionv1 "k8s.io/api/admission/v1"
 	crlog "sigs.k8s.io/controller-runtime/pkg/log"
+	"sigs.k8s.io/controller-runtime/pkg/webhook/admission"
 
 	admplugins "github.com/NVIDIA/KAI-scheduler/pkg/admission/plugins"
 	admgpu "github.com/NVIDIA/KAI-scheduler/pkg/admission/webhook/v1alpha2/gpusharing"
+	"github.com/NVIDIA/KAI-scheduler/pkg/admission/webhook/v1alpha2/podhooks"
 	"github.com/NVIDIA/KAI-scheduler/pkg/scheduler/api/node_info"
 	"github.com/NVIDIA/KAI-scheduler/pkg/scheduler/api/pod_info"
 	"github.com/NVIDIA/KAI-scheduler/pkg/scheduler/api/pod_status"
@@ -118,28 +122,52 @@ func guard(what string, f func()) (panicked string) {
 	return ""
 }
 
-// runAdmission runs the webhook pipeline in API-server order: mutating webhook (plugins.Mutate) and then the
-// validating webhook (plugins.Validate) on the mutated object. It also runs Validate on the pod as submitted
-// and Mutate a second time on its own result.
+// runAdmission runs the real webhook handlers (podhooks.NewPodMutator / NewPodValidator around the plugin set) in
+// API-server order for a CREATE: mutating webhook and then the validating webhook on the mutated object. It also runs
+// the validator on the pod as submitted, the mutator a second time on its own result, and the UPDATE path of the
+// validating webhook: the stored object is a plain CPU-only pod of the same name (admitted earlier), the new object
+// is the pod under test (GPU annotations and limits are mutable in the sense that the webhook is registered for
+// create;update and is the only thing that looks at them).
 func runAdmission(pl *admplugins.KaiAdmissionPlugins, raw *v1.Pod) (view AdmView, mutated *v1.Pod, idem string) {
 	idem = "n/a"
-	if p := guard("Validate(raw)", func() { view.ValidateRaw = errStr(pl.Validate(raw.DeepCopy())) }); p != "" {
+	ctx := admission.NewContextWithRequest(context.Background(), admission.Request{AdmissionRequest: admissionv1.AdmissionRequest{Namespace: raw.Namespace}})
+	mutator := podhooks.NewPodMutator(nil, pl, spec.SchedulerName)
+	validator := podhooks.NewPodValidator(nil, pl, spec.SchedulerName)
+	create := func(p *v1.Pod) string {
+		_, err := validator.ValidateCreate(ctx, p)
+		return errStr(err)
+	}
+	if p := guard("Validate(raw)", func() { view.ValidateRaw = create(raw.DeepCopy()) }); p != "" {
 		view.ValidateRaw = p
 	}
 	m1 := raw.DeepCopy()
-	if p := guard("Mutate", func() { view.Mutate = errStr(pl.Mutate(m1)) }); p != "" {
+	if p := guard("Mutate", func() { view.Mutate = errStr(mutator.Default(ctx, m1)) }); p != "" {
 		view.Mutate = p
 	}
 	if view.Mutate != "" {
 		return view, nil, idem
 	}
-	if p := guard("Validate(mutated)", func() { view.Validate = errStr(pl.Validate(m1)) }); p != "" {
+	if p := guard("Validate(mutated)", func() { view.Validate = create(m1) }); p != "" {
 		view.Validate = p
 	}
 	view.Accepted = view.Validate == ""
+	// UPDATE of a stored plain pod into the pod under test
+	stored := raw.DeepCopy()
+	stored.Annotations = map[string]string{}
+	for _, cs := range [][]v1.Container{stored.Spec.Containers, stored.Spec.InitContainers} {
+		for i := range cs {
+			cs[i].Resources = v1.ResourceRequirements{Requests: v1.ResourceList{v1.ResourceCPU: resource.MustParse("100m")}}
+		}
+	}
+	if p := guard("ValidateUpdate", func() {
+		_, err := validator.ValidateUpdate(ctx, stored, m1.DeepCopy())
+		view.Update = errStr(err)
+	}); p != "" {
+		view.Update = p
+	}
 	m2 := m1.DeepCopy()
 	var err2 string
-	if p := guard("Mutate(Mutate)", func() { err2 = errStr(pl.Mutate(m2)) }); p != "" {
+	if p := guard("Mutate(Mutate)", func() { err2 = errStr(mutator.Default(ctx, m2)) }); p != "" {
 		err2 = p
 	}
 	switch {
